@@ -84,6 +84,11 @@ def labellings_for(O, mode):
     root = ("g1", "g2", "g3")
     if mode == "same":
         return {v: root for v in range(O.n)}
+    if mode == "gluey":
+        # multi-character family names whose lists differ but concatenate to the same text ('a'+'bc' = 'ab'+'c'), on
+        # different leaves of one drawing; ancestors hold all four
+        full = ("a", "bc", "ab", "c")
+        return {v: (full if O.children[v] else (("a", "bc") if v % 2 else ("ab", "c"))) for v in range(O.n)}
     # "losses": each level loses something, leaves alternate
     lab = {}
     for v in O.order_pre():
